@@ -177,11 +177,37 @@ pub fn run(seed: u64, count: usize, max_n: usize, out: &mut impl Write) {
         let dups = rng.below(arcs.len() / 3 + 1);
         for _ in 0..dups { if !arcs.is_empty() { let a = arcs[rng.below(arcs.len())]; arcs.push(a); } }
         rng.shuffle(&mut arcs);
-        let text: String = arcs.iter().map(|(a, b)| format!("{a}\t{b}\n")).collect();
+        // input-format options of the ingester: comment lines anywhere (ignored), and, one case
+        // in four, --lines-to-skip S / --max-arcs K, which select arcs S .. S+K of the list
+        // (comment lines are not counted by either, as documented)
+        let all_arcs = arcs.clone();
+        let (skip, maxa) = if arcs.len() >= 2 && rng.chance(1, 4) {
+            let sk = if rng.chance(1, 2) { rng.below(arcs.len() / 2 + 1) } else { 0 };
+            let mx = if rng.chance(2, 3) { Some(rng.range(1, arcs.len() - sk)) } else { None };
+            (sk, mx)
+        } else { (0, None) };
+        let arcs: Vec<(usize, usize)> = all_arcs.iter().skip(skip).take(maxa.unwrap_or(usize::MAX)).copied().collect();
+        let g: Graph = {
+            let mut h: Graph = vec![Vec::new(); n];
+            for &(x, y) in &arcs { h[x].push(y); }
+            for l in h.iter_mut() { l.sort_unstable(); l.dedup(); }
+            h
+        };
+        // (no comment lines together with --lines-to-skip: the documentation says comment lines
+        // are not counted, the implementation skips raw lines; neither reading is asserted)
+        let comments = rng.chance(1, 3) && skip == 0;
+        let mut text = String::new();
+        if comments && rng.chance(1, 2) { text.push_str("# arcs\n"); }
+        for (a, b) in &all_arcs {
+            text.push_str(&format!("{a}\t{b}\n"));
+            if comments && rng.chance(1, 4) { text.push_str("#\tcomment\t7\n"); }
+        }
         let mut c0 = Conf::random(&mut rng, n);
         c0.codes[3] = Codes::Gamma;
         let base0 = dir.join("g0");
         let mut a = vec![s("from"), s("arcs"), p(&base0), s("--num-nodes"), n.to_string(), s("-t"), t.clone()];
+        if skip > 0 { a.push(s("--lines-to-skip")); a.push(skip.to_string()); }
+        if let Some(k) = maxa { a.push(s("--max-arcs")); a.push(k.to_string()); }
         a.extend(comp_args(&c0));
         // malformed stream: the same input with a fault in the middle (a line that is not
         // valid UTF-8, or a non-numeric field) must make the command fail, not ingest a prefix
